@@ -187,7 +187,19 @@ func (rt *router) desc(fr *routeFrame, v ssa.Value, d int) string {
 	case *ssa.Call:
 		return "ret0:" + rt.callDesc(fr, x, d+1)
 	case *ssa.BinOp:
-		return "(" + rt.desc(fr, x.X, d+1) + x.Op.String() + rt.desc(fr, x.Y, d+1) + ")"
+		a, b := rt.desc(fr, x.X, d+1), rt.desc(fr, x.Y, d+1)
+		// fold integer arithmetic on literals (the rotated `for i := range` loop starts at -1+1)
+		if x.Op == token.ADD || x.Op == token.SUB {
+			if ia, errA := strconv.ParseInt(a, 10, 64); errA == nil {
+				if ib, errB := strconv.ParseInt(b, 10, 64); errB == nil {
+					if x.Op == token.ADD {
+						return strconv.FormatInt(ia+ib, 10)
+					}
+					return strconv.FormatInt(ia-ib, 10)
+				}
+			}
+		}
+		return "(" + a + x.Op.String() + b + ")"
 	case *ssa.MakeMap, *ssa.MakeSlice:
 		return "new:" + typeShort(v.Type())
 	case *ssa.Range:
